@@ -1,7 +1,7 @@
 #!/bin/bash
 # refaccheck.sh <diff>... : apply a behaviour-preserving refactoring to a scratch worktree and run every property's rules on it.
 export PATH=/opt/veriftools/go1.26.8/bin:$PATH GOTOOLCHAIN=local GOFLAGS=-mod=mod GOPROXY=off GOSUMDB=off GOWORK=off
-WT=/tmp/cleanwt
+WT=${WT:-/tmp/devwt}
 for d in "$@"; do
   git -C $WT checkout -q -- . ; git -C $WT clean -fdq
   if ! git -C $WT apply "$d" 2>/dev/null; then echo "REFAC $d: does not apply"; continue; fi
